@@ -4,7 +4,7 @@
    finishes") is refuted in the stated configuration class by the known findings (hang with an ordered
    standalone buffer, LIFO deadlock with early transport disabled) and otherwise decided by exploration. *)
 From Coq Require Import List ZArith Bool.
-From JSL Require Import Base.Res Base.ListX SM.Types SM.Util SM.Handler SM.Step SM.Inv SMP.Offers SM.ExampleDeadlock SM.ExampleHang SM.Middleware SMP.Reflect Props.C05.
+From JSL Require Import Base.Res Base.ListX SM.Types SM.Util SM.Handler SM.Step SM.Inv SMP.Offers SM.ExampleDeadlock SM.ExampleHang SM.Middleware SMP.Reflect Props.C05 Gen.Kernels Gen.KernelsEq.
 Import ListNotations.
 
 Theorem C11_ready_only :
@@ -75,3 +75,15 @@ Theorem C11_refuted_hang :
   forall fuel, step hang_sigma hang_inst fuel hang_pre hang_trs TMJumpToEvent = SOutOfFuel.
 Proof. exact C05_refuted_step. Qed.
 Print Assumptions C11_refuted_hang.
+
+(* the predicates on a job's operation records that decide what is offered (is_job_running, no_operation_idle,
+   all_operations_done, the per-job done test) are the code's: regenerated from job_type_utils / core_utils on every run *)
+Theorem C11_job_predicates_are_the_code's :
+  forall i jb, gen_is_job_running jb = is_job_running jb /\ gen_no_operation_idle jb = no_operation_idle jb
+               /\ gen_all_operations_done jb = all_operations_done jb /\ gen_job_is_done i jb = job_is_done i jb
+               /\ gen_no_processing_operations jb = negb (is_job_running jb).
+Proof.
+  intros i jb. split; [apply gen_is_job_running_eq|]. split; [apply gen_no_operation_idle_eq|]. split; [apply gen_all_operations_done_eq|].
+  split; [apply gen_job_is_done_eq|apply gen_no_processing_operations_eq].
+Qed.
+Print Assumptions C11_job_predicates_are_the_code's.
